@@ -53,6 +53,28 @@ fn battery(store: &AnnotationStore) -> Vec<String> {
             }
         }
     }
+    // sizes of the underlying stores (handles of future items depend on them) and temporary-id lookups
+    v.push(format!("lens={:?}", (store.annotations_len(), store.resources_len(), store.datasets_len())));
+    for i in 0..store.annotations_len().min(12) {
+        let id = format!("!A{}", i);
+        v.push(format!("annotation({})={:?}", id, store.annotation(id.as_str()).map(|a| a.handle().as_usize())));
+    }
+    for i in 0..store.resources_len().min(6) {
+        let id = format!("!R{}", i);
+        v.push(format!("resource({})={:?}", id, store.resource(id.as_str()).map(|a| a.handle().as_usize())));
+    }
+    for s in store.datasets() {
+        let id = format!("!S{}", s.handle().as_usize());
+        v.push(format!("dataset({})={:?}", id, store.dataset(id.as_str()).map(|a| a.handle().as_usize())));
+        for i in 0..s.as_ref().data_len().min(8) {
+            let id = format!("!D{}", i);
+            v.push(format!("data({},{})={:?}", s.handle().as_usize(), id, s.annotationdata(id.as_str()).map(|a| a.handle().as_usize())));
+        }
+        for i in 0..s.as_ref().keys_len().min(8) {
+            let id = format!("!K{}", i);
+            v.push(format!("key({},{})={:?}", s.handle().as_usize(), id, s.key(id.as_str()).map(|a| a.handle().as_usize())));
+        }
+    }
     let d: Vec<(usize, usize)> = store
         .find_data(false, false, DataOperator::Any)
         .map(|d| (d.set().handle().as_usize(), d.handle().as_usize()))
@@ -259,10 +281,44 @@ impl Property for C11 {
                 out.fail(&format!("loaded.{}", fnd.failure.facet), fnd.failure.signature, fnd.failure.detail);
             }
         }
+        // the loaded store must also *continue* like the original: the same additional annotation gets the same handle
+        // and leaves both stores in the same observable state
+        let mut store2 = store2;
+        {
+            let first_res = obs.resources.first().map(|r| r.handle);
+            if let Some(rh) = first_res {
+                let mk = || {
+                    AnnotationBuilder::new()
+                        .with_target(SelectorBuilder::TextSelector(BuildItem::Handle(TextResourceHandle::new(rh)), Offset::whole()))
+                        .with_data("c11-extra-set", "c11-key", "c11-value")
+                };
+                let h1 = catch(|| store.annotate(mk()).map(|h| h.as_usize()).map_err(|e| format!("{}", e)));
+                let h2 = catch(|| store2.annotate(mk()).map(|h| h.as_usize()).map_err(|e| format!("{}", e)));
+                out.checks += 1;
+                match (h1, h2) {
+                    (Ok(a), Ok(b)) => {
+                        if a != b {
+                            out.fail("continue", "handle", format!("annotating the original gives {:?}, annotating the loaded store gives {:?}", a, b));
+                        } else if let (Ok(o1), Ok(o2)) = (catch(|| observe(&store)), catch(|| observe(&store2))) {
+                            if o1 != o2 {
+                                out.fail("continue", "observation", "after the same additional annotation the loaded store differs from the original".to_string());
+                            }
+                        }
+                    }
+                    (Err(p), _) | (_, Err(p)) => out.fail("continue", p.signature(), format!("annotating after the round trip panicked: {}", p.msg)),
+                }
+            }
+        }
+        if !out.failures.is_empty() {
+            return out;
+        }
+        let obs2 = match catch(|| observe(&store2)) {
+            Ok(o) => o,
+            Err(_) => return out,
+        };
         // second generation: saving the loaded store and loading that again must give the same store
         // (byte identity is NOT required: id maps are hash maps whose iteration order differs per instance)
         let f2 = dir.path("y.store.stam.cbor");
-        let mut store2 = store2;
         match catch(|| store2.to_file(&f2)) {
             Ok(Ok(())) => match catch(|| AnnotationStore::from_file(&f2, Config::default())) {
                 Ok(Ok(store3)) => {
